@@ -81,4 +81,111 @@ Section RoundTrip.
       rewrite N.eqb_refl, msg_eqb_refl. reflexivity. }
     rewrite V. reflexivity.
   Qed.
+
+  (* ---------- detached-JWS representation ---------- *)
+  Fixpoint no_dot (s : string) : bool :=
+    match s with EmptyString => true | String a r => negb (Ascii.eqb a ".") && no_dot r end.
+
+  Lemma split_nodot s : no_dot s = true -> split_on "." s = [s].
+  Proof.
+    induction s as [|a r IH]; cbn; [reflexivity|]. intro H. apply andb_true_iff in H as [H1 H2].
+    apply negb_true_iff in H1. rewrite H1, (IH H2). reflexivity.
+  Qed.
+  Lemma split_app a r : no_dot a = true -> split_on "." (String.append a (String "." r)) = a :: split_on "." r.
+  Proof.
+    induction a as [|x a IH]; cbn; [reflexivity|]. intro H. apply andb_true_iff in H as [H1 H2].
+    apply negb_true_iff in H1. rewrite H1, (IH H2). reflexivity.
+  Qed.
+  Lemma app_assoc a b c : String.append (String.append a b) c = String.append a (String.append b c).
+  Proof. induction a as [|x a IH]; cbn; [reflexivity|]. rewrite IH. reflexivity. Qed.
+  Lemma ne_app a b : nonempty b = true -> nonempty (String.append a b) = true.
+  Proof. destruct a; cbn; [auto|reflexivity]. Qed.
+
+  Definition jws_proof (c : sign_ctx) (t : string) : lproof :=
+    let p := proof_of_ctx c in
+    {| p_type := p_type p; p_created := p_created p; p_creator := p_creator p; p_vm := p_vm p;
+       p_pv := ""; p_pv_len := false; p_jws := String.append (p_jws p) t; p_purpose := p_purpose p; p_domain := p_domain p;
+       p_nonce := p_nonce p; p_challenge := p_challenge p; p_repr := RJws; p_chain := None |}.
+
+  Lemma signed_proof_jws c t : s_repr c = RJws -> signed_proof c t = jsonld_object (jws_proof c t).
+  Proof. intro R. unfold signed_proof, jws_proof. rewrite R. reflexivity. Qed.
+
+  Lemma jws_text c t : s_repr c = RJws ->
+    p_jws (jws_proof c t) = String.append (s_alg_header c) (String "." (String "." t)).
+  Proof. intro R. unfold jws_proof, proof_of_ctx. cbn [p_jws]. rewrite R. rewrite app_assoc. reflexivity. Qed.
+
+  Lemma jws_lookups c t : s_repr c = RJws ->
+    lookup (jsonld_object (jws_proof c t)) "proofValue" = None /\
+    lookup (jsonld_object (jws_proof c t)) "jws" = Some (JStr (p_jws (jws_proof c t))) /\
+    lookup (jsonld_object (jws_proof c t)) "capabilityChain" = None.
+  Proof.
+    intro R. assert (NE : nonempty (p_jws (jws_proof c t)) = true).
+    { rewrite (jws_text c t R). apply ne_app. reflexivity. }
+    unfold jsonld_object, opt_member. rewrite NE. generalize (p_jws (jws_proof c t)). intro J.
+    unfold jws_proof, proof_of_ctx. cbn.
+    destruct (nonempty (s_challenge c)); destruct (nonempty (s_domain c)); destruct (nonempty (s_nonce c));
+    destruct (nonempty (if nonempty (s_purpose c) then s_purpose c else "assertionMethod")); destruct (nonempty (s_vm c));
+    repeat split; reflexivity.
+  Qed.
+
+  Lemma options_jws_same c t : s_repr c = RJws -> options_jws (jws_proof c t) = options_jws (proof_of_ctx c).
+  Proof.
+    intro R. unfold options_jws, jsonld_object, opt_member.
+    assert (NE : nonempty (p_jws (jws_proof c t)) = true) by (rewrite (jws_text c t R); apply ne_app; reflexivity).
+    assert (NE0 : nonempty (p_jws (proof_of_ctx c)) = true).
+    { unfold proof_of_ctx. cbn. rewrite R. apply ne_app. reflexivity. }
+    rewrite NE, NE0. generalize (p_jws (jws_proof c t)) (p_jws (proof_of_ctx c)). intros J J0.
+    unfold jws_proof, proof_of_ctx. cbn.
+    destruct (nonempty (s_challenge c)); destruct (nonempty (s_domain c)); destruct (nonempty (s_nonce c));
+    destruct (nonempty (if nonempty (s_purpose c) then s_purpose c else "assertionMethod")); destruct (nonempty (s_vm c));
+    reflexivity.
+  Qed.
+
+  Theorem verify_sign_jws d c t k m :
+    s_repr c = RJws -> s_nonce c = "" ->
+    no_dot (s_alg_header c) = true -> no_dot t = true -> nonempty t = true ->
+    lookup d "proof" = None ->
+    time_ok (s_created c) = true -> nonce_dec "" = Some "" ->
+    sign_message canon compact_sec compact_proof excluded_keys d c = Some m ->
+    seg_dec t = DSig (SBy k m) ->
+    key_of resolve (proof_of_ctx c) = Some k -> accepts (s_type c) = true ->
+    verify_object canon compact_sec time_ok nonce_dec pv_dec seg_dec resolve accepts compact_proof excluded_keys
+      (add_proof d (signed_proof c t)) = Verified 1.
+  Proof.
+    intros R Hn Hh Ht Hne Hnp Htime Hnd Hs Hseg Hk Ha.
+    rewrite (signed_proof_jws c t R).
+    unfold add_proof. rewrite Hnp. cbn [app].
+    unfold verify_object. rewrite lookup_set_key_same. cbn [proof_entries all_some as_obj].
+    destruct (jws_lookups c t R) as (L1 & L2 & L3).
+    assert (SPL : split_on "." (p_jws (jws_proof c t)) = [s_alg_header c; ""; t]).
+    { rewrite (jws_text c t R). rewrite (split_app _ _ Hh). f_equal.
+      change (String "." t) with (String.append "" (String "." t)). rewrite (split_app "" t eq_refl).
+      rewrite (split_nodot t Ht). reflexivity. }
+    assert (SPL0 : split_on "." (p_jws (proof_of_ctx c)) = [s_alg_header c; ""; ""]).
+    { unfold proof_of_ctx. cbn. rewrite R. change ".." with (String "." (String "." "")).
+      rewrite (split_app _ _ Hh). reflexivity. }
+    assert (NE : nonempty (p_jws (jws_proof c t)) = true) by (rewrite (jws_text c t R); apply ne_app; reflexivity).
+    assert (NP : new_proof time_ok nonce_dec pv_dec (jsonld_object (jws_proof c t)) = Some (jws_proof c t)).
+    { unfold new_proof. rewrite fld_created. cbn [jws_proof proof_of_ctx p_created]. rewrite Htime. cbn [negb].
+      rewrite L1, L2. cbn [str_entry]. rewrite NE. cbn [negb andb]. rewrite fld_nonce. cbn [jws_proof proof_of_ctx p_nonce].
+      rewrite Hn, Hnd, L3. rewrite fld_type, fld_creator, fld_vm, fld_purpose, fld_domain, fld_challenge.
+      unfold jws_proof, proof_of_ctx. cbn. rewrite ?Hn, ?R. reflexivity. }
+    rewrite NP. change verify_object_checks_all_proofs with true. cbv iota. cbn [forallb length].
+    assert (V : verify_one canon compact_sec pv_dec seg_dec resolve accepts compact_proof excluded_keys
+                  (set_key "proof" (JArr [JObj (jsonld_object (jws_proof c t))]) d) (jws_proof c t) = true).
+    { unfold verify_one.
+      assert (K : key_of resolve (jws_proof c t) = key_of resolve (proof_of_ctx c)) by reflexivity.
+      rewrite K, Hk. cbn [jws_proof proof_of_ctx p_type]. rewrite Ha. cbn [andb].
+      unfold sign_message, verify_data in *.
+      assert (RP : p_repr (proof_of_ctx c) = RJws) by (cbn; exact R). rewrite RP in Hs.
+      cbn [jws_proof p_repr]. rewrite (options_jws_same c t R).
+      unfold without_proof in *. rewrite remove_key_set_key.
+      destruct (canon (JObj (options_jws (proof_of_ctx c)))) as [co|]; [|discriminate].
+      destruct (compact_if compact_sec compact_proof (JObj (remove_key "proof" d))) as [d'|]; [|discriminate].
+      destruct (canon d') as [cd|]; [|discriminate].
+      rewrite SPL0 in Hs. change (p_jws (jws_proof c t)) with (p_jws (jws_proof c t)). rewrite SPL.
+      unfold verify_value. cbn [jws_proof p_repr]. change (p_jws _) with (p_jws (jws_proof c t)) at 1.
+      rewrite SPL. rewrite Hne, Hseg. inversion Hs; subst. rewrite N.eqb_refl, msg_eqb_refl. reflexivity. }
+    rewrite V. reflexivity.
+  Qed.
 End RoundTrip.
